@@ -27,7 +27,7 @@ ASSUMPTIONS = [
 FAULTS = ['missing', 'empty', 'ten-bytes', 'header-only', 'half', 'one-byte-short']
 REQUIRED = {t: ['path:inline', 'path:serial', 'path:pool', 'path:cache-hit', 'workers:1', 'workers:16', 'list:rectangular', 'list:below-threshold',
                 'history:different-lists-one-process', 'fault:planted', 'fault:save-raises', 'fault:crash-during-save', 'fault:crash-during-assembly', 'object:matrix',
-                'object:load-vector', 'keys:same-text-other-curve', 'keys:deep-siblings', 'call:test-list-only', 'trace:checked', 'source:driver', 'mesh:non-dyadic-time-grid'] + ['fault-class:' + f for f in FAULTS]
+                'object:load-vector', 'keys:same-text-other-curve', 'keys:deep-siblings', 'call:test-list-only', 'trace:checked', 'source:driver', 'mesh:non-dyadic-time-grid', 'history:children-after-parents'] + ['fault-class:' + f for f in FAULTS]
             for t in ('quick', 'thorough')}
 TIMEOUT = {'quick': 1500, 'thorough': 7200}
 CURVES = ['UnitSquare', 'PiSquare', 'LShape', 'Circle', 'UnitInterval']
@@ -217,6 +217,19 @@ def run_sched(spec, acc):
                     if not same_bits(g, per_pair(SL, te, trl)):
                         acc.violation('path-differs:history', '%s: call %s of a sequence with different lists differs from per-pair evaluation' % (curve, nm),
                                       dict(wit0, pw_exact=exact, call=nm))
+            # the same operator next assembles lists of CHILDREN (the quarters the estimators build) that share corners with the leaves it
+            # has just seen; the reference comes from a fresh operator
+            from src.hierarchical_error_estimator import DummyElement
+            par = order[:6]
+            fine = [q for qs in DummyElement.uniform_refinement(par) for q in qs]
+            fresh = SLmod.SingleLayerOperator(ls.mesh, pw_exact=exact)
+            for nm, te, trl in (('children-x-parents', fine, par), ('children-x-children', fine, fine), ('parents-x-children', par, fine)):
+                got = SL.bilform_matrix(te, trl, use_mp=False)
+                acc.case('%s|hist-children|%s|%s' % (curve, exact, nm), None)
+                acc.seen('history:children-after-parents')
+                if not same_bits(got, per_pair(fresh, te, trl)):
+                    acc.violation('path-differs:history', '%s: %s assembled by an operator that assembled the parents before differs from per-pair evaluation by a fresh operator' % (curve, nm),
+                                  dict(wit0, pw_exact=exact, call=nm))
     finally:
         mp.cpu_count = real_cpu
         if os.path.exists(trace_fn):
